@@ -270,7 +270,7 @@ pub fn judge(cap: usize, term: &[u8], ops: &[OpTrace], seam: SeamInfo) -> Verdic
                     let includes_own = own_index.map_or(false, |oi_| h + k > oi_);
                     // greediness + "next successful write carries everything pending"
                     if is_emit {
-                        if seam.fault_free {
+                        if seam.fault_free || seam.failures_visible {
                             if let Some(nx) = seq.get(h + k) {
                                 if at.bytes.len() + nx.len() <= cap {
                                     find!(
@@ -382,7 +382,7 @@ pub fn judge(cap: usize, term: &[u8], ops: &[OpTrace], seam: SeamInfo) -> Verdic
         }
 
         // greediness G1: an emit that fits into the remaining room writes nothing
-        if seam.fault_free && is_emit && !bypass_ok {
+        if (seam.fault_free || seam.failures_visible) && is_emit && !bypass_ok {
             if let (Some(fill), Some(own)) = (fill_at_start, own_item.as_ref()) {
                 if fill + own.len() < cap && !op.attempts.is_empty() {
                     find!(
